@@ -22,6 +22,14 @@ def family(pid, tier, seed):
             GG.random_inputs(g, rng, rnd, 8, seen)
             gs.append(g)
         gs += curated_core(rng)
+        # the schemas of the C02 family (abandoned attempts), here judged by exact equality incl. accept / reject, every third
+        # with AllowTrailing
+        lf = leak_family(rng, True)
+        rng.shuffle(lf)
+        for g in lf[: (30 if quick else 120)]:
+            g["ks"] = [0, 1, -1]
+            g["inputs"] = g["inputs"][:40]
+            gs.append(g)
         # the repetition limit (participle.MaxIterations): a sub-family with the limit lowered to 3
         for i in range(4 if quick else 30):
             g = GG.make_grammar(rng, "m%d" % i, ks=(0, 1, -1))
@@ -73,6 +81,10 @@ def family(pid, tier, seed):
         for g in curated_core(rng, with_tokens=True):
             if g["id"] == "b0":
                 continue   # (loops that spin to the iteration limit: exercised by C01 with its own inputs)
+            if g["id"] in ("x0", "x1"):
+                g["explicit"] = True   # they name an elided type: judged against the meaning, with the inputs they come with
+                gs.append(g)
+                continue
             g["inputs"], g["groups"] = [], []
             seen = set()
             terms = GG.grammar_terms(g) + [";", "y", "9"]
@@ -105,7 +117,7 @@ def family(pid, tier, seed):
             GG.exhaustive_inputs(g, exh, seen)
             GG.random_inputs(g, rng, rnd, 9, seen)
             gs.append(g)
-        gs += [g for g in curated_core(rng, with_tokens=False) if g["id"] in ("u0", "u1")]
+        gs += [g for g in curated_core(rng, with_tokens=False) if g["id"] in ("u0", "u1", "x2", "x3")]
         # the same production tried at two raw positions that differ only by an explicitly consumed elided token (equal
         # non-elided cursors), first failing and then matching
         cap = lambda f, fk, kid: {"op": "cap", "f": f, "fk": fk, "kid": kid}
@@ -196,6 +208,16 @@ def curated_core(rng, with_tokens=True):
         gs.append(mk_grammar("t4", [("P0", seq(cap("K", "string", ref("Ident")), lit("("), cap("V", "token", {"op": "neg", "kid": lit(";")}),
                                                cap("R", "tokens", grp("once", grp("star", {"op": "neg", "kid": lit(";")}))), lit(";")),
                                      [F("K", "string"), F("V", "token"), F("R", "tokens")])], with_pos=True))
+    # explicitly named elided tokens and explicit EOF references in TRAILING optional / repeated groups (the group is entered
+    # when nothing but elided text is left before EOF)
+    gs.append(mk_grammar("x0", [("P0", seq(cap("H", "string", ref("Ident")), grp("star", cap("D", "strings", ref("Comment")))), [F("H", "string"), F("D", "strings")])], ks=(0, 1, -1)))
+    gs.append(mk_grammar("x1", [("P0", seq(grp("plus", cap("H", "strings", ref("Ident"))), grp("opt", cap("D", "string", ref("Comment"))), grp("opt", cap("Z", "string", ref("EOF")))), [F("H", "strings"), F("D", "string"), F("Z", "string")])], trailing=True, ks=(0, 1, -1)))
+    # user code that consumes a token and then says "no match", at the head of alternatives and of repeated groups
+    gs.append(mk_grammar("x2", [("P0", seq(grp("star", grp("once", alt(cap("W", "unode2", {"op": "user2"}), cap("N", "strings", ref("Int")), seq(lit("("), cap("S", "strings", ref("Ident")))))), grp("opt", lit("!"))),
+                                 [F("W", "unode2"), F("N", "strings"), F("S", "strings")])], ks=(0, 1, 2, -1, -3)))
+    # a nullable production inside an optional group that fails after it (nothing consumed, captures pending)
+    gs.append(mk_grammar("x3", [("P0", seq(grp("opt", seq(cap("L", "node", {"op": "prod", "p": "P1"}), lit("!"))), cap("V", "string", ref("Ident"))), [F("L", "node", "P1"), F("V", "string")]),
+                                 ("P1", grp("star", cap("M", "strings", lit("("))), [F("M", "strings")])], ks=(0, 1, 2, -1)))
     # a union in an optional / repeated position whose earlier member fails beyond the lookahead
     gs.append(mk_grammar("u0", [("P0", seq(grp("opt", cap("H", "union", {"op": "union", "u": "U0"})), grp("star", cap("R", "strings", grp("once", alt(ref("Ident"), lit("("), lit(")")))))), [F("H", "union", "U0"), F("R", "strings")]),
                                  ("P1", seq(lit("a"), lit("b"), cap("X", "string", lit("("))), [F("X", "string")]),
@@ -262,6 +284,8 @@ def leak_family(rng, quick):
     combos += [("modcap_" + m, "none", k) for m in ("star", "opt", "plus") for k in ("string", "strings", "tokens")]
     # the three shapes of the long-input run (leak-big): here with short inputs, judged by the meaning
     combos += [("big_" + m, "none", "strings") for m in ("alt", "opt", "look")]
+    # captures INSIDE the operand of a negation that matches several tokens and then fails
+    combos += [("negcap", n, k) for n in ("none", "complete") for k in ("string", "strings", "bool")]
     for idx, (cp, nested, kind) in enumerate(combos):
         fields0 = [{"name": "A", "kind": kind, "arg": ""}, {"name": "B", "kind": "strings", "arg": ""}, {"name": "C", "kind": "string", "arg": ""}]
         capA = cap("A", kind, ref("Int") if kind == "int8" else ref("Ident"))
@@ -328,6 +352,8 @@ def leak_family(rng, quick):
             rep_ = grp(m, cap("A", kind, grp("once", seq(ref("Ident"), lit("!")))))
             body = seq(rep_, cont) if m != "plus" else {"op": "alt", "kids": [seq(rep_, lit(";")), cont]}
             prods_extra = []
+        elif cp == "negcap":
+            body = seq({"op": "neg", "kid": grp("once", attempt)}, grp("opt", cont))
         elif cp == "alt":
             body = {"op": "alt", "kids": [attempt, cont]}
         elif cp == "altalt":
@@ -354,7 +380,7 @@ def leak_family(rng, quick):
         root = {"name": "DynRoot", "fields": [{"name": "X", "kind": "union", "arg": "URoot", "tag": "@@"}],
                 "body": {"op": "cap", "f": "X", "fk": "union", "kid": {"op": "union", "u": "URoot"}}}
         g = {"id": "k%d" % idx, "schema": [cp, nested, kind], "prods": [root] + prods, "unions": {"URoot": ["P0"]}, "inputs": [], "ks": [0, 1, 2, 4, -1],
-             "maxiter": 1000000, "conv": GG.conv_table(), "ci": False, "citypes": [], "trailing": False}
+             "maxiter": 1000000, "conv": GG.conv_table(), "ci": False, "citypes": [], "trailing": idx % 3 == 2}   # (every third: AllowTrailing)
         seen = set()
         a = "7" if kind == "int8" else "x"
         nest = {"none": [[]], "complete": [["(", "y", ")"]], "partial": [["(", "y", "9", ")"], ["(", "y", ")"], ["(", "y", "9"]],
@@ -579,6 +605,13 @@ def run(pid, tier, args):
         if pid == "C01" and not args.replay:
             from props import recorded
             recorded.check(v, wd, pid)
+        if pid == "C01" and not args.replay:
+            # Build options in every order give the same parser (CaseInsensitive, Lexer, Elide, Unquote, Upper)
+            for line in vlib.vh(vhbin, ["option-order"], timeout=600).splitlines():
+                f = line.split("\t")
+                v.validated(1)
+                if f[0] != "OK":
+                    v.violation("the order of the Build options changes the parser: input %s: %s" % (f[1], f[2][:400]), {"property": pid, "kind": "option-order", "line": line})
         if pid == "C11" and not args.replay:
             # hand-written node types that embed a struct carrying Pos / EndPos / Tokens: same values as the plain node type
             for line in vlib.vh(vhbin, ["posfields-static"], timeout=600).splitlines():
